@@ -8,6 +8,7 @@ import PyAbel.Model.Symmetry
 import PyAbel.Model.Center
 import PyAbel.Model.Pipeline
 import PyAbel.Model.Dispatch
+import PyAbel.Model.Dasch
 open PyAbel PyAbel.Proto
 
 def axOfNat : Nat → Option SymAxis
@@ -31,6 +32,14 @@ def methodIdx : Method → Nat
 
 def dirOfNat : Nat → Option Dir
   | 0 => some .forward | 1 => some .inverse | 2 => some .other | _ => none
+
+/-- named model matrices `M[i,j]` -/
+def namedMatrix : String → Option (Nat → Nat → Float)
+  | "onionW" => some (fun i j => onionW i j)
+  | "twoPointD" => some (fun i j => twoPointD i j)
+  | "daun0" => some (fun j i => daun0 j i)              -- A[j,i]
+  | "daun0T" => some (fun i j => daun0 j i)             -- U = Aᵀ
+  | _ => none
 
 def showImg (im : Img Float) : String :=
   s!"ok {im.rows} {im.cols} " ++ showFloats im.toList
@@ -68,6 +77,18 @@ def handle (toks : List String) : String :=
       if !admissible ax m then "raise" else
       showImg (transformQuadrants stubT (Img.ofArray r c 0.0 xs) ax m)
     | _, _, _, _, _, _, _, _ => "bad-op"
+  -- mat name n   →  n×n entries of a model matrix
+  | ["mat", name, n] =>
+    match namedMatrix name, n.toNat? with
+    | some M, some n => showImg ⟨n, n, M⟩
+    | _, _ => "bad-op"
+  -- solve name n <d…>   →  back substitution  U y = d  with the named upper-triangular matrix
+  | "solve" :: name :: n :: rest =>
+    match namedMatrix name, n.toNat?, parseFloats rest with
+    | some U, some n, some d =>
+      if d.size ≠ n then "bad-op" else
+      s!"ok 1 {n} " ++ showFloats (backSubst U (fun i => d.getD i 0.0) n)
+    | _, _, _ => "bad-op"
   -- dispatch vt method|X dir oneD rows cols centring anyq originOK cropOK symOK regOK outOK
   | ["dispatch", vt, m, d, oneD, r, c, cen, anyq, oOK, cOK, sOK, rOK, outOK] =>
     match parseBool vt, d.toNat? >>= dirOfNat, parseBool oneD, r.toNat?, c.toNat?, parseBool cen, parseBool anyq,
